@@ -1,6 +1,7 @@
 package rules
 
 import (
+	"fmt"
 	"go/token"
 	"strings"
 
@@ -48,6 +49,8 @@ func c19(c *core.Ctx) map[string]interface{} {
 	// "bytes that are not a decodable NGAP message" end the run only if the decoder refuses them:
 	// the decoder's totality/refusal obligations (C14) are part of this check
 	include(c, "C14")
+	// … and padding that is not zero is not a PER encoding (X.691 10.1)
+	r4align(c)
 	return nil
 }
 
@@ -184,7 +187,11 @@ func r19check(c *core.Ctx) {
 	c.Rule(R, "every Read/Write/Decoder/ConnectToAmf result reaches ManageError(its own err) before the next I/O, any use of the co-result, or a return")
 	manage := pStg + ".ManageError"
 	total := 0
+	covered := r19checkX(c, R, &total)
 	for _, fn := range driverFuncs(c) {
+		if covered[fn] {
+			continue
+		}
 		c.Analysed(core.FuncName(fn))
 		ord := ordinals{}
 		var ios []*ssa.Call
@@ -532,7 +539,134 @@ func r19oneread(c *core.Ctx) {
 			c.Check(!inLoop, R, key, ci.Pos(), "read once", "this Read is inside a loop of %s: how often it is repeated depends on the bytes received, so a peer that announces more data than it sends blocks the emulator for ever (no exit, no error)", shortName(core.FuncName(f)))
 		}
 	}
-	if n < 3 {
+	if n < 1 {
 		c.Undecided("R19.oneread: only %d Read call sites found below the procedure drivers (expected about 17)", n)
 	}
+}
+
+// r19checkX: R19.check on the fail-stop variant of the evaluator model (drvx.go). Each procedure
+// driver is interpreted with the helpers of its package entered and the error results of Read,
+// Write and ngap.Decoder left open: a test of one forks the path, os.Exit ends it. On every path
+// and for every such call, by the time the next Read/Write/Decoder is made (or the driver
+// returns) the path must have found the error nil; a path that goes on with the error non-nil,
+// or without having looked, is the violation. Returns the functions decided this way (the
+// drivers and the helpers only they call); the SSA rule decides the rest.
+func r19checkX(c *core.Ctx, R string, total *int) map[*ssa.Function]bool {
+	covered := map[*ssa.Function]bool{}
+	var drivers []*ssa.Function
+	for _, n := range []string{"ManageNGSetup", "RegisterUE", "DeregisterUE", "EstablishPDU", "ReleasePDU", "ModifyPDU", "ServiceRequest"} {
+		if f := c.P.Func(pStg, n); f != nil {
+			drivers = append(drivers, f)
+		}
+	}
+	inDrv := map[*ssa.Function]bool{}
+	for _, f := range drivers {
+		inDrv[f] = true
+	}
+	a := newAgg(c, R)
+	for _, fn := range drivers {
+		x := driverModelXE(c, fn, true)
+		if x.err != "" || len(x.paths) == 0 {
+			if c.Once("xmodel-err-note:" + fn.Name()) {
+				c.Note("%s: fail-stop evaluator model not used (%s); R19.check reads the SSA of the function alone", fn.Name(), x.err)
+			}
+			continue
+		}
+		c.Analysed(core.FuncName(fn))
+		covered[fn] = true
+		name := shortFn(fn)
+		maxIO := 0
+		for _, p := range x.paths {
+			ord := ordinals{}
+			var ios []*core.AEvent
+			for _, e := range p.events {
+				switch e.kind {
+				case "write", "recv", "decode":
+					ios = append(ios, e.ev)
+				}
+			}
+			if len(ios) > maxIO {
+				maxIO = len(ios)
+			}
+			for k, ev := range ios {
+				key := name + ":" + ord.next(ev.Callee)
+				errName := fmt.Sprintf("err:io#%d", ev.Index)
+				if ev.Callee == pNgap+".Decoder" {
+					errName = fmt.Sprintf("err:rx#%d", ev.Index)
+				}
+				var nils map[string]bool
+				barrier := "the driver returns"
+				switch {
+				case k+1 < len(ios):
+					nils = ios[k+1].Nils
+					barrier = "the next " + shortName(ios[k+1].Callee)
+				case p.out.Stopped:
+					a.check(true, key, ev.Site.Pos(), "the error is found nil (or the process exits) before the next I/O or the return, on every evaluated path", "")
+					continue
+				default:
+					nils = p.out.Nils
+				}
+				wasNil, looked := nils[errName]
+				switch {
+				case looked && wasNil:
+					a.check(true, key, ev.Site.Pos(), "the error is found nil (or the process exits) before the next I/O or the return, on every evaluated path", "")
+				case looked && !wasNil:
+					a.check(false, key, ev.Site.Pos(), "", "%s: a path finds the error of %s non-nil and still reaches %s: the procedure goes on after the fault", name, shortName(ev.Callee), barrier)
+				default:
+					// the exception the property names: the decode after Registration Complete
+					later := false
+					for _, e2 := range ios[k+1:] {
+						if e2.Callee == fnSctpWrite {
+							later = true
+						}
+					}
+					rx := fmt.Sprintf("rx#%d", ev.Index)
+					used := false
+					for _, r := range p.out.Ret {
+						if strings.Contains(nm(r), rx) {
+							used = true
+						}
+					}
+					if ev.Callee == pNgap+".Decoder" && fn.Name() == "RegisterUE" && k == len(ios)-1 && !later && !used {
+						if _, seen := a.pos[key]; !seen {
+							c.Except(R, key, ev.Site.Pos(), "the one message after Registration Complete, whose content the emulator deliberately ignores (named in the property); its result is not used and no send follows")
+							a.pos[key] = ev.Site.Pos()
+						}
+						continue
+					}
+					a.check(false, key, ev.Site.Pos(), "", "%s: the error of %s is not looked at before %s (on a path of the evaluated driver, helpers entered): a fault at this step goes unnoticed", name, shortName(ev.Callee), barrier)
+				}
+			}
+		}
+		*total += maxIO
+		c.Sites(maxIO)
+	}
+	// Except() registers its own obligation: drop those keys from the aggregate before flushing
+	var keys []string
+	for _, k := range a.keys {
+		keys = append(keys, k)
+	}
+	a.keys = keys
+	a.flush()
+	// helpers reached only from decided drivers are decided with them
+	for _, f := range driverFuncs(c) {
+		if covered[f] || fnPkgPath(f) != pStg || inDrv[f] {
+			continue
+		}
+		callers, all := 0, true
+		for _, g := range driverFuncs(c) {
+			for _, ci := range core.Calls(g) {
+				if ci.Common().StaticCallee() == f {
+					callers++
+					if !covered[g] {
+						all = false
+					}
+				}
+			}
+		}
+		if callers > 0 && all {
+			covered[f] = true
+		}
+	}
+	return covered
 }
